@@ -197,9 +197,16 @@ def gen_plan(profile, seed):
                     prog.append({"op": "mutate_output", "id": new_id(), "reg": r[0],
                                  "index": rng.randrange(1 << 16)})
             elif k == "load":
-                nm = _pick(rng, tables.ALL_NAMES) if rng.random() < 0.93 else _pick(rng, tables.INVALID)
-                prog.append({"op": "load", "id": new_id(), "loader": _pick(rng, tables.LOADERS),
-                             "name": nm})
+                r = rng.random()
+                if r < 0.85:      # a combination the reference defines
+                    nm = _pick(rng, tables.ALL_NAMES)
+                    ok = [ld for ld in tables.LOADERS if tables.expected(ld, nm)[0] == "ok"]
+                    ld = _pick(rng, ok)
+                elif r < 0.95:    # any combination (most raise ValueError)
+                    nm, ld = _pick(rng, tables.ALL_NAMES), _pick(rng, tables.LOADERS)
+                else:
+                    nm, ld = _pick(rng, tables.INVALID), _pick(rng, tables.LOADERS)
+                prog.append({"op": "load", "id": new_id(), "loader": ld, "name": nm})
             elif k == "set_default_dtype":
                 cur_default[0] = _pick(rng, ["float32", "float64"])
                 prog.append({"op": "set_default_dtype", "id": new_id(), "dtype": cur_default[0]})
